@@ -26,6 +26,7 @@ ENCS = ('latin_1', 'cp500', 'cp037')
 
 
 def prepare(ctx):
+    ctx.online_wanted = ('C03', 'C04', 'C05', 'C09')      # shadow-model monitors watch the file layer while this workload runs
     from cardutil import iso8583, mciipm
     from cardutil.config import config
     ctx.iso, ctx.mciipm = iso8583, mciipm
